@@ -3,12 +3,13 @@ Spec runtime/Handles.tla; MC: mc/Handles_design*.cfg (+ mc/Handles_implswap.cfg:
 RingMatchesRefs at design level); generation: mc/Handles_gen*.cfg, mc/Handles_sim.cfg;
 replayer harness/handles_replay.cpp (heap-allocated handle variables, hook H1 live-object registry, ASan).
 """
-import json, os, threading, time
+import json, os, re, threading, time
 from vlib import Broken, b_json, run_replayer, sh
 
 SLOTS = ["d1", "d2", "m1", "m2", "m3", "p1", "p2", "k1", "k2", "s1", "s2", "t1", "t2"]
 KINDS = {"d": "device", "m": "memory", "p": "pool", "k": "kernel", "s": "stream", "t": "tag"}
 KINDSEQ = ["device", "buffer", "memory", "pool", "kernel", "stream", "tag"]
+LEAK_EVERY = 50
 ACTIONS = ["DoDefaultConstruct", "DoCopyConstruct", "DoAssign", "DoSwap", "DoFree", "DoScopeExit", "DoDontUseRefs",
            "DoNewDevice", "DoMalloc", "DoWrap", "DoSlice", "DoNewPool", "DoReserve", "DoResize", "DoShrinkToFit",
            "DoBuildKernel", "DoCreateStream", "DoTagStream", "DoGetStream", "DoSetStream"]
@@ -24,7 +25,8 @@ def seqs(x):
 
 
 def norm_obs(o):
-    return {"Hd": seqs(o["Hd"]), "L": seqs(o["L"]), "D": [seqs(d) for d in seqs(o["D"])], "A": seqs(o["A"])}
+    return {"Hd": seqs(o["Hd"]), "L": seqs(o["L"]), "D": [seqs(d) for d in seqs(o["D"])], "A": seqs(o["A"]),
+            "M": seqs(o["M"])}
 
 
 def replay_chunk(ctx, exe, env, cases, tag, timeout=1500, max_crashes=10):
@@ -61,15 +63,58 @@ def replay_chunk(ctx, exe, env, cases, tag, timeout=1500, max_crashes=10):
         open(outp, "w").writelines(lines)
         if len(crashes) >= max_crashes:
             break
-    outs = {}
+    outs, leaks = {}, []
     for line in open(outp):
         try:
             rec = json.loads(line)
         except ValueError:
             raise Broken("unparseable replayer output: %r" % line[:200])
-        if "beh" in rec:
+        if "leak" in rec:
+            leaks.append(rec["upto"])
+        elif "beh" in rec:
             outs[rec["beh"]] = rec
+    outs["leaks"] = leaks
+    outs["log"] = out[-6000:] if cases else ""
     return outs, crashes
+
+
+def leak_frame(log):
+    """First two occa:: frames of the first LeakSanitizer stack in a log (for the signature)."""
+    fr = []
+    on = False
+    for line in log.splitlines():
+        if "leak of" in line:
+            if fr:
+                break
+            on = True
+        elif on:
+            m = re.search(r"#\d+ \S+ in (occa::[A-Za-z0-9_:~<>]+)", line)
+            if m:
+                fr.append(m.group(1))
+                if len(fr) == 2:
+                    break
+    return ">".join(fr) if fr else "unknown"
+
+
+def find_leaks(ctx, exe, env, cases, outs_list, chunks, every, describe):
+    """A leak check failed somewhere in a window of `every` behaviours: re-run the first such window of each
+    worker with a check after every behaviour to name the first behaviour that leaks."""
+    for w, (o, _) in enumerate(outs_list):
+        if not o.get("leaks"):
+            continue
+        upto = o["leaks"][0]
+        lo = max(0, upto - every + 1)
+        idx = chunks[w][lo:upto + 1]
+        e = dict(env)
+        e["HR_LEAKCHECK"] = "1"
+        o2, c2 = replay_chunk(ctx, exe, e, [cases[i] for i in idx], "leak-%d" % w)
+        if o2.get("leaks"):
+            g = idx[o2["leaks"][0]]
+            ctx.mismatch("leak:%s" % leak_frame(o2.get("log", "")),
+                         "LeakSanitizer: heap memory allocated by the library is unreachable after %s and releasing everything\n%s"
+                         % (describe(g), o2.get("log", "")[-2500:]), [cases[g]])
+        else:
+            ctx.notes.append("a leak report in behaviours %s..%s of worker %d did not repeat when re-run" % (lo, upto, w))
 
 
 def parallel_replay(ctx, exe, env, cases, ways):
@@ -95,9 +140,12 @@ def parallel_replay(ctx, exe, env, cases, ways):
     if errors:
         raise errors[0]
     outs, crashes = {}, []
+    parallel_replay.last = (results, chunks)
     for w in range(ways):
         o, c = results[w]
         for li, rec in o.items():
+            if not isinstance(li, int):
+                continue
             outs[chunks[w][li]] = rec
         for cr in c:
             cr = dict(cr)
@@ -187,6 +235,10 @@ def compare(ctx, behaviours, cases, outs, crashes, mode):
                 k = next(x for x in range(len(SLOTS)) if got["A"][x] != exp["A"][x])
                 bad = ("memoryAllocated", "memoryAllocated() through %s: implementation %d, spec %d" %
                        (SLOTS[k], got["A"][k], exp["A"][k]))
+            elif got["M"] != exp["M"]:
+                k = next(x for x in range(len(SLOTS)) if got["M"][x] != exp["M"][x])
+                bad = ("maxMemoryAllocated", "maxMemoryAllocated() through %s: implementation %d, spec %d" %
+                       (SLOTS[k], got["M"][k], exp["M"][k]))
             if bad:
                 ctx.mismatch("%s:%s:%s" % (bad[0], where, sh_), pre + bad[1], [cases[i]])
                 break   # later steps of this behaviour start from a diverged state
@@ -240,6 +292,7 @@ def run(ctx):
     steps_checked = 0
     replayed = 0
     ncrash = 0
+    leak_checks = 0
     for mode in (["Serial", "OpenMP"] if thorough else ["Serial"]):
         env = ctx.occa_env(lib, "occa-cache-" + mode)
         env["HR_MODE"] = mode
@@ -251,15 +304,23 @@ def run(ctx):
         wo, wc = run_replayer(ctx, exe, wenv, [{"slots": SLOTS, "steps": []}], timeout=600)
         if wc or 0 not in wo:
             raise Broken("kernel warm-up failed: %s" % (wc,))
+        # LeakSanitizer as a monitor: after every 50th behaviour (all handle variables destroyed, devices that were
+        # left alive on purpose freed by the replayer) no heap block allocated by the library may be unreachable
+        env["ASAN_OPTIONS"] = "detect_leaks=1:leak_check_at_exit=0:abort_on_error=0:exitcode=86:detect_stack_use_after_return=0"
+        env["HR_LEAKCHECK"] = str(LEAK_EVERY)
         outs, crashes = parallel_replay(ctx, exe, env, cases, W)
         steps_checked += compare(ctx, behaviours, cases, outs, crashes, mode)
+        results, chunks = parallel_replay.last
+        find_leaks(ctx, exe, env, cases, results, chunks, LEAK_EVERY,
+                   lambda g: [(t["a"], t["s"], t["t"], t["n"]) for t in behaviours[g]["h"]])
+        leak_checks += sum(len(r[0]) - 2 for r in results) // LEAK_EVERY
         replayed += len(outs)
         ncrash += len(crashes)
     ctx.traces_validated = replayed
     k = len(cases)
     ctx.samples = [cases[0], cases[k // 3], cases[(2 * k) // 3], cases[-1]]
     ctx.cov.update({"behaviours_replayed": replayed, "distinct_behaviours": len(cases), "steps_checked": steps_checked,
-                    "crashes": ncrash, "generated": gen_counts, "actions_taken_in_design_run": cov,
+                    "crashes": ncrash, "leak_checks": leak_checks, "generated": gen_counts, "actions_taken_in_design_run": cov,
                     "implswap_counterexample": True})
     ctx.assumptions += [
         "handle variables: 2 device, 3 memory, 2 pool, 2 kernel, 2 stream, 2 tag; <= 2 devices per history; "
@@ -268,5 +329,7 @@ def run(ctx):
         "'never touched after destruction' is monitored by ASan on the replayed behaviours (handle variables are heap objects), "
         "double destruction by the registry of hook H1; absence is claimed for the explored behaviours only",
         "ring order is not observable and not compared; the hook header and the replayer are trusted",
+        "LeakSanitizer is a monitor (every 50 behaviours, after everything was destroyed); it can miss a block that a stale "
+        "stack slot still points at",
     ]
     return ctx.finish(exhaustive=False)
